@@ -60,7 +60,9 @@ def abstract_value(ip, cr, st, tix, name, depth=0):
         return vint(T.ivar(int(t["name"][1:]), name))
     if k == "slice":
         esz = ip.sizeof(cr, t["inner"])
-        cnt = Lin.sym(name + ".len")
+        cnt = ip.ctx.extra.get(("slice_len", name))
+        if cnt is None:
+            cnt = Lin.sym(name + ".len")
         st.F.add_ge(cnt)
         T.declare_var(name, cnt * esz)
         return vbytes(T.bvar(name))
